@@ -57,7 +57,7 @@ func selfSigned() (*tls.Config, *x509.CertPool, error) {
 
 // startProxy builds the real proxy (forwarder.NewHTTPProxy) once; routing per
 // request is decided from the scenario that owns the requested host.
-func startProxy(handler bool) (*proxyRig, error) {
+func startProxy(handler bool, readTimeout time.Duration) (*proxyRig, error) {
 	srvTLS, pool, err := selfSigned()
 	if err != nil {
 		return nil, err
@@ -72,6 +72,8 @@ func startProxy(handler bool) (*proxyRig, error) {
 	cfg.Address = "127.0.0.1:0"
 	cfg.ProxyLocalhost = forwarder.AllowProxyLocalhost
 	cfg.TestingHTTPHandler = handler
+	// HTTPProxyConfig.ReadTimeout bounds reading a request; a tunnel is not part of the request
+	cfg.ReadTimeout = readTimeout
 	cfg.UpstreamProxyFunc = func(req *http.Request) (*url.URL, error) {
 		sc := reg.get(req.URL.Host)
 		if sc == nil {
